@@ -76,6 +76,7 @@ def run(chk):
     from . import rules_C05
 
     n_rows = rules_C05.retrieval_rows(prog, r3) + rules_C05.storage_rows(prog, r3, keying_only=True, tier=chk.tier)
+    rules_C05.size_thresholds(prog, r3)
     r3.floor("decision rows", n_rows, 40)
 
     # ------------------------------------------------------------------ R4 prefix symmetry
@@ -101,6 +102,9 @@ def run(chk):
     from . import rules_C18
 
     report.include_rules(chk, r5, rules_C18, ("C18.R2",), "a value fetched through FallbackClient is the first answering cache's value")
+    from . import rules_C12
+
+    report.include_rules(chk, r5, rules_C12, ("C12.R3", "C12.R4"), "through HashClient every requested key is asked of its server and every answer is in the merged result")
     # the prefix never leaks into results: fetch results are keyed through the remap (R3); stats/cache_memlimit use b""
     chk.assume("a faithful memcached returns exactly the bytes it was given; serializer round trips are C15")
 
@@ -125,14 +129,19 @@ def prefix_symmetry(prog, r4):
         dom = wire.evaluate(prog, m)
         bad = None
         cnt = 0
+        unknown = False
         for ev in dom.events:
             for cmd in wire.commands_of(ev["wire"]):
+                unknown = unknown or wire.lost(_flat(cmd))
                 for fr in _flat(cmd):
                     if fr[0] == "key":
                         cnt += 1
                         if fr[2] != wire.SelfAttr("key_prefix"):
                             bad = bad or "a key is validated and sent with prefix %s instead of self.key_prefix: the item lives under another name than the one set()/get() use, so it is not found (or found by the wrong client)" % wire.describe(fr[2])
         n_k += cnt
+        if bad is None and cnt == 0 and unknown:
+            r4.undecided("Client.%s:key-prefix" % m.name, "Client.%s: what is sent contains a piece the wire domain lost; whether and how the key reaches the wire is not known" % m.name)
+            continue
         r4.expect(bad is None and cnt > 0, "Client.%s: %d key fragment(s), all with self.key_prefix" % (m.name, cnt), "Client.%s:key-prefix" % m.name, "Client.%s: %s" % (m.name, bad or "no key reaches the wire"), fn=m, node=m.node)
     r4.floor("key fragments", n_k, 18)
 
